@@ -205,6 +205,73 @@ def gen_exhaustive(length, size=64):
         yield ops
 
 
+def gen_oversize_cases(rng):
+    """daemon level: requests that cannot fit the configured arena must be refused with
+    413/414/431 or a close — never processed, never overflowing"""
+    import dlog
+    cases = []
+    k = 0
+    for mem in (256, 512, 1024, 2048, 4096, 8192):
+        for shape in ("url", "hdrval", "hdrs", "method", "hdrname"):
+            for extra in (1, 17, mem // 2, mem, 3 * mem):
+                n = mem + extra
+                if shape == "url":
+                    req = b"GET /" + b"u" * n + b" HTTP/1.1\r\nHost: h\r\n\r\n"
+                elif shape == "hdrval":
+                    req = b"GET / HTTP/1.1\r\nHost: h\r\nX-Big: " + b"v" * n + b"\r\n\r\n"
+                elif shape == "hdrname":
+                    req = b"GET / HTTP/1.1\r\nHost: h\r\nX" + b"n" * n + b": v\r\n\r\n"
+                elif shape == "method":
+                    req = b"M" * n + b" / HTTP/1.1\r\nHost: h\r\n\r\n"
+                else:
+                    req = b"GET / HTTP/1.1\r\nHost: h\r\n" + b"".join(b"X-%d: %s\r\n" % (i, b"v" * 40) for i in range(n // 48 + 2)) + b"\r\n"
+                how = rng.choice(["whole", "halves", "k"])
+                if how == "whole":
+                    pieces = [req]
+                elif how == "halves":
+                    pieces = [req[:len(req) // 2], req[len(req) // 2:]]
+                else:
+                    step = rng.choice([100, 333, 1000])
+                    pieces = [req[i:i + step] for i in range(0, len(req), step)]
+                L = ["case ov%d" % k, "cfg mode=%s mem=%d" % (rng.choice(["select", "epoll"]), mem), "start", "arrive 0 1", "arrive 1 2",
+                     "send 1 " + dlog.hx(b"GET /ok HTTP/1.1\r\nHost: h\r\n\r\n"), "round"]
+                for pc in pieces:
+                    L += ["send 0 " + dlog.hx(pc), "round"]
+                L += ["rounds 400", "stop"]
+                cases.append((L, {"mem": mem, "shape": shape, "len": len(req)}))
+                k += 1
+    return cases
+
+
+def judge_oversize(meta, out, err):
+    import dlog
+    if err:
+        return "sanitizer", "daemon aborted on an oversized request: " + err[:200]
+    conns, _ = dlog.view(out)
+    v0, v1 = conns.get(0), conns.get(1)
+    if v0 is None:
+        return "oracle", "no trace of the connection"
+    if v0.handler:
+        return "oracle", "a request larger than the arena (%d > %d) reached the handler" % (meta["len"], meta["mem"])
+    try:
+        rs = dlog.parse_responses(v0.wire, at_eof=v0.eof or v0.rst)
+    except dlog.RespError as ex:
+        return "oracle", "malformed refusal: %s" % ex
+    for r in rs:
+        if r.get("complete") and r["status"] not in (413, 414, 431, 400, 501):
+            return "oracle", "oversized request answered %d" % r["status"]
+    if not rs and not (v0.eof or v0.rst):
+        return "oracle", "oversized request neither refused nor closed"
+    if meta["mem"] >= 512:
+        try:
+            r1 = dlog.parse_responses(v1.wire) if v1 else []
+        except dlog.RespError as ex:
+            return "oracle", "bystander reply malformed: %s" % ex
+        if not (len(r1) == 1 and r1[0]["complete"] and r1[0]["status"] == 200):
+            return "oracle", "bystander connection not served while an oversized request was refused"
+    return None, None
+
+
 class Spec:
     props_module = "Mhd.Props.C08"
     lean_targets = ["Mhd.Props.C08", "drv_pool"]
@@ -222,6 +289,7 @@ class Spec:
         gen_pool()
 
     def build(self, ctx):
+        self.h_daemon = vlib.build_daemon_harness()
         self.harness = vlib.cc("h_pool", [os.path.join(vlib.VERIF, "harness/h_pool.c")])
         self.driver = vlib.driver_path("drv_pool")
 
@@ -294,6 +362,22 @@ class Spec:
             self.run_batch(allseqs[i:i + B], failures, stats)
             if len(failures) > 20:
                 break
+        # daemon level: hard size bound
+        import importlib
+        C01 = importlib.import_module("props.C01")
+        ov = gen_oversize_cases(ctx.rng)
+        res = C01.run_cases(self.h_daemon, ov)
+        ov_stats = {}
+        for i, (lines, meta) in enumerate(ov):
+            out, err = res.get(i, ([], "not run"))
+            kind, det = judge_oversize(meta, out, err)
+            conns, _ = __import__("dlog").view(out)
+            w = conns.get(0).wire[:12] if conns.get(0) else b""
+            key = w[9:12].decode("latin-1") if w.startswith(b"HTTP/") else "closed"
+            ov_stats[key] = ov_stats.get(key, 0) + 1
+            if kind:
+                import re as _re
+                failures.append(vlib.Failure(kind, "arena-bound: " + _re.sub(r"\d+", "N", det)[:100], det + " | " + json.dumps(meta), lines, "conn"))
         distinct = len({json.dumps(s) for s in allseqs if len(s) > 2})
         cov = {"evaluations": len(allseqs), "distinct_nontrivial": distinct,
                "rule": "op sequences on the real pool and the Lean model; distinct = different scripts with >=2 ops; "
@@ -301,7 +385,8 @@ class Spec:
                        "random: sizes incl. 0 and near SIZE_MAX" % (exh_len, EXH_ALPHA),
                "samples": [[" ".join(o) for o in rnd[0]], [" ".join(o) for o in exh[len(exh) // 2]]],
                "exhaustive_sequences": len(exh), "exhaustive_alphabet": EXH_ALPHA, "random_sequences": len(rnd), "corpus": ncorp,
-               "outcomes": stats, "exhaustive": False}
+               "outcomes": stats, "oversized_requests": len(ov), "oversized_outcomes": ov_stats, "exhaustive": False}
+        cov["evaluations"] += len(ov)
         return failures, cov
 
 
